@@ -28,7 +28,7 @@ pub fn scenarios() -> Vec<Scenario> {
             name: "c02-lengths",
             gen,
             run,
-            quick_runs: 100_000,
+            quick_runs: 500_000,
             weight: 8,
             rule: "case = (valid packet, sink behaviour); non-trivial when the packet has >= 1 optional field or its remaining length needs >= 2 length bytes; distinct by case hash",
         },
